@@ -513,9 +513,8 @@ class ImmutableVersion(dns.zone.Version):
                 len(origin),
             )
             right_key = None
-        closest_encloser = dns.name.Name(
-            name[-max(left_comparison[2], right_comparison[2]) :]
-        )
+        common = max(left_comparison[2], right_comparison[2])
+        closest_encloser = dns.name.Name(name[len(name) - common :])
         return Bounds(
             name,
             left.key(),
